@@ -1,11 +1,11 @@
 SPECIFICATION Spec
 CONSTANTS
-  Users = {"u1", "u2"}
+  Users = {"u1"}
   Tokens = {"btc"}
   Std = "stake"
   RecordHist = FALSE
-  InitStd = 9
-  InitTok = 6
+  InitStd = 16
+  InitTok = 12
   CFee = 3
   FeeNum = 3
   FeeDen = 10
@@ -13,14 +13,16 @@ CONSTANTS
   UniDen = 10
   TaxNum = 2
   TaxDen = 5
-  Amts = {1, 2, 5}
-  Mins = {0, 1, 3}
-  Liqs = {1, 2, 4}
-  Donations = {1}
-  DlOffs = {0, 1}
+  Amts = {1, 2, 3, 5}
+  Mins = {0, 2}
+  Liqs = {1, 3}
+  Donations = {1, 2}
+  DlOffs = {1}
   MaxNow = 2
-  Recipients = {"u1", "u2", "feepool"}
+  Senders = {"u1"}
+  Recipients = {"u1"}
   MaxSteps = 100
+  WithUni = TRUE
 VIEW View
 INVARIANTS
   Inv_C02_Conservation
